@@ -22,3 +22,13 @@ for m in sorted(glob.glob(os.path.join(ROOT, 'seeded', '*', 'meta.json'))):
 print('| seeded change | property | what it does | checks, first run | after strengthening |')
 print('|---|---|---|---|---|')
 print('\n'.join(rows))
+
+if __name__ == '__main__':
+    import sys
+    if '--inject' in sys.argv:
+        p = os.path.join(ROOT, 'DESIGN.md')
+        s = open(p).read()
+        a, b = s.index('<!-- SEEDED-TABLE-BEGIN -->'), s.index('<!-- SEEDED-TABLE-END -->')
+        table = ['| seeded change | property | what it does | checks, first run | after strengthening |', '|---|---|---|---|---|'] + rows
+        s = s[:a] + '<!-- SEEDED-TABLE-BEGIN -->\n' + '\n'.join(table) + '\n' + s[b:]
+        open(p, 'w').write(s)
